@@ -119,6 +119,25 @@ def generate(g, tier):
         elif wrap == 'func':
             lines = [lines[0], 'FUNC chain'] + ['    ' + l for l in lines[1:]] + ['REPEAT 2', '    RUN chain']; exp = exp * 2
         cases.append(dict(op='compile', opts=dict(include_comments=comments), src=dict(text='\n'.join(lines)), meta=dict(family='comment-only-arm', exp=['ok', exp, [], None])))
+    # chains in a text whose lines end in CR LF (one string, or a list of CR-terminated lines): the arms are the same arms — ELSE and
+    # conditions followed by a carriage return included (bodies are DELAY lines, whose argument is stripped)
+    for _ in range(count(tier, 40, 300)):
+        narms = r_.randint(1, 4)
+        first_true = r_.randint(0, narms)          # == narms: none of the conditions is true
+        has_else = g.chance(0.7)
+        lines, exp = ['VAR mode %d' % first_true], []
+        for i in range(narms):
+            lines += [f'{"IF" if i == 0 else "ELIF"} mode == {i}', f'    DELAY {i + 1}']
+            if i == first_true: exp.append(f'DELAY {i + 1}')
+        if has_else:
+            lines += [r_.choice(['ELSE', 'else', 'ELSE ']), '    DELAY 99']
+            if first_true == narms: exp.append('DELAY 99')
+        lines.append('DELAY 7'); exp.append('DELAY 7')
+        form = r_.choice(['crlf-text', 'cr-lines', 'mixed-text'])
+        if form == 'crlf-text': src = dict(text='\r\n'.join(lines) + r_.choice(['', '\r\n']))
+        elif form == 'cr-lines': src = dict(lines=[l + '\r' for l in lines])
+        else: src = dict(text=''.join(l + r_.choice(['\n', '\r\n']) for l in lines))
+        cases.append(dict(op='compile', src=src, meta=dict(family='chain-' + form, exp=['ok', exp, [], None], nocorr=True)))
     return cases
 
 
